@@ -67,6 +67,8 @@ def confirm(meta, dst, patch):
     feat = ''
     if os.path.exists(os.path.join(dst, 'demo.rs')) and 'feature = "verif-hooks"' in open(os.path.join(dst, 'demo.rs')).read():
         feat = ' --features verif-hooks'
+    if os.path.exists(os.path.join(dst, 'demo.rs')) and '--release' in open(os.path.join(dst, 'demo.rs')).read()[:1500]:
+        feat += ' --release'
     meta['demo_needs_feature'] = feat.strip()
     if demo_is_integration:
         shutil.copy(os.path.join(dst, 'demo.rs'), os.path.join(WT, 'tests', 'vp_seed_demo.rs'))
